@@ -284,6 +284,35 @@ def lru_assembly(ctx, rr):
                                     'stored LRU differs from the submitted one', stmt='lru_iter'))
                 ys = None
         if ys is not None:
+            # a scan through a regular expression: `.` does not match a line break unless DOTALL is set, and a stem may hold any byte
+            import re as _re_li
+            import re._parser as _sp_li
+            used_li = {x.id for x in ast.walk(h.node) if isinstance(x, ast.Name)}
+            cands_li = [a_.value for a_ in P.modules[h.module].body if isinstance(a_, ast.Assign) and any(isinstance(t_, ast.Name) and t_.id in used_li for t_ in a_.targets)]
+            cands_li += list(P.own(h, ast.Call))
+            for c_ in cands_li:
+                if not (isinstance(c_, ast.Call) and isinstance(c_.func, ast.Attribute) and isinstance(c_.func.value, ast.Name) and c_.func.value.id == 're'
+                        and c_.args and isinstance(c_.args[0], ast.Constant) and isinstance(c_.args[0].value, (bytes, str))):
+                    continue
+                flags_ = ' '.join(ast.unparse(a_) for a_ in c_.args[1:]) + ' '.join(ast.unparse(k_.value) for k_ in c_.keywords)
+                try:
+                    tree_li = _sp_li.parse(c_.args[0].value)
+                except Exception:
+                    continue
+
+                def any_li(x_):
+                    if hasattr(x_, 'data'):
+                        return any(str(op_) == 'ANY' or any_li(av_) for op_, av_ in x_.data)
+                    if isinstance(x_, (tuple, list)):
+                        return any(any_li(z_) for z_ in x_)
+                    return False
+                if any_li(tree_li) and not ('DOTALL' in flags_ or 're.S' in flags_ or tree_li.state.flags & _re_li.DOTALL):
+                    rr.ob(ctx.where(h), 'lru_iter cuts at the separator byte only, whatever bytes a stem holds', ok=False)
+                    rr.fail(ctx.finding('R-LRU-ASSEMBLY', h, h.node, 'lru_iter scans with the pattern %r: `.` stops at a line break (no DOTALL), so a stem holding a 0x0A byte loses everything '
+                                        'up to that byte and the LRU is stored and searched under a different byte string' % c_.args[0].value, stmt='lru_iter'))
+                    ys = None
+                    break
+        if ys is not None:
             raise AnalysisError('R-LRU-ASSEMBLY: helpers.lru_iter is not a single-yield scan for the separator byte')
     if ys is None:
         B = D = C = None
